@@ -5,6 +5,8 @@
   stateless iterator protocol of the reading (master refinement); (2) the protocol is characterised by chain
   predicates: greedy, possessive, bounded, separators only where allowed (Proofs/Lemmas/RepSpec.lean).
 -/
+import ChumskyModel.Proofs.Lemmas.ExtRep
+import ChumskyModel.Proofs.Lemmas.ExtAll
 import ChumskyModel.Proofs.Lemmas.Top
 import ChumskyModel.Proofs.Lemmas.RepSpec
 set_option linter.unusedSimpArgs false
@@ -125,6 +127,29 @@ example :
       | _ => (none, 0)) = (some (.cons (.toks [97]) (.cons (.toks [97]) .nil)), 4) := by
   decide +kernel
 
+/-! ### repetitions of extensions (`EEnv`): a sequence of groups, `expr.separated_by(',')` inside a group, operators whose operand
+  is a repeated nested parse — the items (and separators) are read by `pegE`, the characterisations are the same -/
+
+theorem c02_extensions_machine_refines (e : EEnv) (n : Nat) (env : Env) (m : Mode) (st : St) (hm : env.memoOn = false) (it : It)
+    (k : CollKind) :
+    Refines m st.errs st.ctx (runE e n env m (.collect k it) st) (pegE e n env (.collect k it) st.ss st.ctx) :=
+  runE_refines e n env m _ st hm
+
+theorem c02_extensions_repeated_collect {e : EEnv} {env : Env} {ctx : Val} {n a lo hi s v s' em}
+    (hwf : ∀ h, hi = some h → lo ≤ h)
+    (h : pegE e (n + 2) env (.collect .vec (.repeated a lo hi)) s ctx = .ok v s' em) :
+    ∃ vs, Chain (pegE e n) env ctx a s vs s' em ∧ v = Val.ofList vs ∧ lo ≤ vs.length ∧
+      (∀ h, hi = some h → vs.length ≤ h) ∧ (hi = some vs.length ∨ pegE e n env a s' ctx = .fail) :=
+  pegE_collect_vec_repeated hwf h
+
+theorem c02_extensions_separated_collect {e : EEnv} {env : Env} {ctx : Val} {n k a sep lo hi lead trail s v s' em}
+    (h : pegE e (n + 2) env (.collect k (.separatedBy a sep lo hi lead trail)) s ctx = .ok v s' em) :
+    ∃ vs, SepRun (pegE e n) env ctx a sep lo hi lead trail s vs s' em ∧ v = sCollectOut k vs :=
+  pegE_collect_separatedBy h
+
+#print axioms c02_extensions_machine_refines
+#print axioms c02_extensions_repeated_collect
+#print axioms c02_extensions_separated_collect
 #print axioms c02_machine_refines
 #print axioms c02_repeated_collect
 #print axioms c02_repeated_count
